@@ -68,6 +68,55 @@ def c01_scenarios(rng, n):
                 s["tree"]["p.diff"] = ("R", 0o644, text)
             s["opts"]["p"] = depth
         scns.append(s)
+    # the last line changed, added to or removed, with every combination of "final newline missing" on the two sides, in all formats
+    for _ in range(n // 6):
+        a = [(gen.rand_text(rng, True) + str(i_), "L") for i_ in range(rng.randint(1, 6))]
+        how = rng.choice(["change-last", "change-last", "append", "drop-last", "newline-only"])
+        na, nb = rng.random() < 0.5, rng.random() < 0.5
+        ops = [(" ", l) for l in a]
+        last = a[-1]
+        if how == "change-last":
+            ops[-1] = ("-", (last[0], "N" if na else "L")); ops.append(("+", (last[0] + " new", "N" if nb else "L")))
+        elif how == "append":
+            ops[-1] = ("-", (last[0], "N")) if na else (" ", last)
+            if na:
+                ops.append(("+", (last[0], "L")))
+            ops.append(("+", ("appended", "N" if nb else "L")))
+        elif how == "drop-last":
+            if len(a) < 2:
+                continue
+            ops[-1] = ("-", (last[0], "N" if na else "L"))
+            if nb:
+                prev = ops[-2][1]; ops[-2] = ("-", prev); ops.insert(len(ops) - 1, ("+", (prev[0], "N")))
+        else:
+            if na == nb:
+                na, nb = True, False
+            ops[-1] = ("-", (last[0], "N" if na else "L")); ops.append(("+", (last[0], "N" if nb else "L")))
+        ops = applyc.fix_nonl(ops)
+        a2 = [l for o_, l in ops if o_ != "+"]; b2 = [l for o_, l in ops if o_ != "-"]
+        if not a2 or not b2 or a2 == b2:
+            continue
+        fmt = rng.choice(["unified", "context", "context", "normal", "git"])
+        path = rng.choice(["e", "ed/e"])
+        hs = gen.hunks_from_ops(ops, 0 if fmt == "normal" else rng.choice([0, 1, 3]))
+        if fmt == "context":
+            text = emit.emit_context("a/" + path, "b/" + path, hs, "2024-01-01 00:00:00.000000000 +0000", "2024-01-02 00:00:00.000000000 +0000")
+        elif fmt == "normal":
+            text = ("Index: b/%s\n" % path).encode() + emit.emit_normal(ops)
+        elif fmt == "git":
+            text = emit.emit_git(path, path, hs)
+        else:
+            text = emit.emit_unified("a/" + path, "b/" + path, hs, "2024-01-01 00:00:00.000000000 +0000", "2024-01-02 00:00:00.000000000 +0000")
+        sec = dict(path=path, newpath=path, a=a2, b=b2, text=text, fmt=fmt, kind="change", hs=hs, ops=ops, mode_old=None, mode_new=None, w=1)
+        scns.append(scen.base_scenario(rng, [sec], opts={}))
+    # git sections that consist of a header only: an empty file created or deleted, a pure rename, a pure mode change
+    for _ in range(n // 10):
+        secs = [scen.headeronly_section(rng, p_, k_) for p_, k_ in zip(rng.sample(["e1", "hd/e2", "e3"], 2), rng.sample(["add", "delete", "rename", "mode"], 2))]
+        s0 = scen.base_scenario(rng, secs, opts={})
+        for x in secs:
+            if x["kind"] == "delete":
+                scen.add_parents(s0["tree"], x["path"]); s0["tree"][x["path"]] = ("R", 0o644, b"")
+        scns.append(s0)
     # one old file both renamed and copied (and perhaps changed under a third name), the entries in either order: every entry
     # of a git patch is relative to the old tree
     for _ in range(n // 10):
